@@ -31,7 +31,11 @@ TraceNext ==
     \/ Core /\ Observe
     \/ /\ l <= TraceLen(tid) /\ Ev.ev = "Env"
        /\ EnvSet(Ev.share, Ev.val) /\ Observe
+    \/ /\ l <= TraceLen(tid) /\ Ev.ev = "EnvF"
+       /\ EnvSetF(Ev.share, Ev.val) /\ Observe
 
 TraceSpec == TraceInit /\ [][TraceNext]_tvars
 TraceOK == TraceConstraint(tid, l)
+\* vacuity guard of C20 (used as a second CONSTRAINT): reports which case of the statement decided a transition
+CaseSeen == ("case" \in DOMAIN lab) => PrintT(<<"CASE", lab.case>>)
 =============================================================================
